@@ -161,7 +161,23 @@ def recodeWireFn (j : Json) : P Json := do
   | "columnschema" => return re (decodeColumnSchema t) encodeColumnSchema
   | "select" => return re (decodeMonitorSelect t) encodeMonitorSelect
   | "operation" => return outcomeToJson gOperationToJson (decodeOperation wireFuel t)
+  | "result" => return outcomeToJson (fun (r : GResult) => Json.mkObj [("count", .num ⟨r.count, 0⟩), ("error", .str r.error),
+      ("details", .str r.details), ("uuid", .str r.uuid), ("rows", listToJson gRowToJson r.rows)]) (decodeResult wireFuel t)
+  | "updates" => return outcomeToJson (strMapToJson (strMapToJson (fun (u : GRowUpdate) =>
+      Json.mkObj [("new", optJ gRowToJson u.new), ("old", optJ gRowToJson u.old)]))) (decodeTableUpdates (decodeRowUpdate wireFuel) t)
+  | "updates2" => return outcomeToJson (strMapToJson (strMapToJson ru2J)) (decodeTableUpdates (decodeRowUpdate2 wireFuel) t)
+  | "condsince" => return outcomeToJson (fun (x : Bool × String × List (String × List (String × GRowUpdate2))) =>
+      Json.arr #[.bool x.1, .str x.2.1, strMapToJson (strMapToJson ru2J) x.2.2]) (decodeCondSince (decodeRowUpdate2 wireFuel) t)
+  | "monitorreq" => return outcomeToJson (fun (r : GMonitorRequest) => Json.mkObj [("columns", listToJson Json.str r.columns),
+      ("where", listToJson gTripleToJson r.where_), ("select", optJ selJ r.select)]) (decodeMonitorRequest wireFuel t)
+  | "schema" => return re (decodeDatabaseSchema t) encodeDatabaseSchema
   | _ => throw s!"unknown wire kind {kind}"
+where
+  strMapToJson {α} (f : α → Json) (m : List (String × α)) : Json := Json.mkObj (m.map (fun p => (p.1, f p.2)))
+  ru2J (u : GRowUpdate2) : Json := Json.mkObj [("initial", optJ gRowToJson u.initial), ("insert", optJ gRowToJson u.insert),
+    ("modify", optJ gRowToJson u.modify), ("delete", optJ gRowToJson u.delete)]
+  selJ (s : MonitorSelect) : Json := Json.mkObj [("initial", optJ Json.bool s.initial), ("insert", optJ Json.bool s.insert),
+    ("delete", optJ Json.bool s.delete), ("modify", optJ Json.bool s.modify)]
 
 end Ovsdb
 
